@@ -92,13 +92,47 @@ def pmap(fn, items, jobs, init=None, initargs=(), seed=0, chunksize=1, progress=
             if progress:
                 progress(out[-1])
         return out
+    # A worker can die (z3 is native code; a watchdog interrupt at the wrong moment has been seen to crash it).  A plain
+    # multiprocessing.Pool then waits for ever, so a ProcessPoolExecutor is used: it reports a broken pool, the items that
+    # did not finish are retried in a fresh pool, and an item that is in flight in three broken pools is given up as a
+    # harness error (never counted as a pass).
+    import concurrent.futures as cf
     ctx = mp.get_context('fork')
     out = []
-    with ctx.Pool(jobs, initializer=_init_worker, initargs=(init, initargs), maxtasksperchild=None) as pool:
-        for r in pool.imap_unordered(_run_item, [(fn, it) for it in items], chunksize=chunksize):
-            out.append(r)
-            if progress:
-                progress(r)
+    pending = list(items)
+    strikes = {}
+    for attempt in range(6):
+        if not pending:
+            break
+        broken = False
+        ex = cf.ProcessPoolExecutor(max_workers=jobs if attempt < 3 else max(1, jobs // 4), mp_context=ctx, initializer=_init_worker, initargs=(init, initargs))
+        futs = {ex.submit(_run_item, (fn, it)): it for it in pending}
+        done_items = set()
+        try:
+            for f in cf.as_completed(futs):
+                it = futs[f]
+                try:
+                    r = f.result()
+                except cf.process.BrokenProcessPool:
+                    broken = True
+                    continue
+                except BaseException as e:  # noqa
+                    r = {'item': item_name(it), 'harness_errors': ['%s: %s: %s' % (item_name(it), type(e).__name__, e)]}
+                done_items.add(id(it))
+                out.append(r)
+                if progress:
+                    progress(r)
+        finally:
+            ex.shutdown(wait=False, cancel_futures=True)
+        pending = [it for it in pending if id(it) not in done_items]
+        if broken:
+            print('[harness] a worker process died; %d item(s) will be retried' % len(pending), file=sys.stderr, flush=True)
+            for it in pending:
+                strikes[id(it)] = strikes.get(id(it), 0) + 1
+        if not broken:
+            break
+    for it in pending:
+        out.append({'item': item_name(it), 'harness_errors': ['%s: worker process died repeatedly' % item_name(it)], 'wall_s': 0})
     return out
 
 
